@@ -85,6 +85,8 @@ func (eng *Engine) CheckStructural() []*StructResult {
 				eng.checkNoCall(d, r)
 			case "typeshape":
 				eng.checkTypeShape(d, r)
+			case "loopexits":
+				eng.checkLoopExits(d, r)
 			}
 		}()
 		out = append(out, r)
@@ -345,4 +347,47 @@ func (eng *Engine) checkTypeShape(d *StructDecl, r *StructResult) {
 	if r.OK {
 		r.Detail = "only the listed fields can carry bytes"
 	}
+}
+
+// loopexits NAME func-key loop N == K : the loop has exactly K exit edges (no early break/return)
+func (eng *Engine) checkLoopExits(d *StructDecl, r *StructResult) {
+	f := strings.Fields(d.Args)
+	r.Name = short(d.Pkg) + " loopexits " + d.Args
+	if len(f) < 5 {
+		panic("loopexits: expected 'NAME FUNC loop N == K'")
+	}
+	key := qualifyKey(d.Pkg, f[len(f)-5])
+	var n, k int
+	fmt.Sscanf(f[len(f)-3], "%d", &n)
+	fmt.Sscanf(f[len(f)-1], "%d", &k)
+	fns := eng.funcs[key]
+	if len(fns) == 0 {
+		r.Detail = "function not found: " + key
+		return
+	}
+	li := eng.loops(fns[0])
+	for h, ord := range li.heads {
+		if ord != n {
+			continue
+		}
+		exits := 0
+		var where []string
+		for b := range li.body[h] {
+			for _, s := range b.Succs {
+				if !li.body[h][s] {
+					exits++
+					where = append(where, fmt.Sprintf("block %d -> %d", b.Index, s.Index))
+				}
+			}
+			if len(b.Succs) == 0 {
+				exits++
+				where = append(where, fmt.Sprintf("block %d returns/panics", b.Index))
+			}
+		}
+		sort.Strings(where)
+		r.OK = exits == k
+		r.Detail = fmt.Sprintf("%d exit edges (%s), want %d", exits, strings.Join(where, "; "), k)
+		return
+	}
+	r.Detail = "loop not found"
 }
